@@ -59,6 +59,7 @@ def fit_specs(draw, tier):
         # magnetic crystals: the force constants respect the magnetic space group only
         magmom=draw(st.sampled_from(["none", "none", "none", "nc_uniform", "col_uniform", "col_afm"])),
         magdir=draw(st.sampled_from(["z", "x", "a", "a+b", "generic"])),
+        shared_dataset=draw(st.sampled_from([False, False, True])),
     )
     return base
 
@@ -139,7 +140,19 @@ def run_fit(spec):
             u[d["number"]] = d["displacement"]
             forces.append(-np.einsum("ijab,jb->ia", fc, u))
     order = spec.get("dataset_order", "as_generated")
-    if order == "as_generated":
+    if spec.get("shared_dataset") and order == "as_generated":
+        # the dataset is handed to a second object which receives the forces of ANOTHER crystal model: the two objects keep their own data
+        try:
+            ph_b = Phonopy(cell, supercell_matrix=S, primitive_matrix=pmat, is_symmetry=spec["is_symmetry"], log_level=0)
+        except Exception:
+            ph_b = None
+        if ph_b is not None:
+            ph_b.dataset = ph.dataset
+            ph.forces = forces
+            ph_b.forces = [-1.7 * np.asarray(f) + 0.3 for f in forces]
+        else:
+            ph.forces = forces
+    elif order == "as_generated":
         ph.forces = forces
     else:
         entries = [{"number": int(d["number"]), "displacement": np.array(d["displacement"], dtype=float), "forces": np.array(f)}
@@ -172,7 +185,7 @@ def run_fit(spec):
     nontriv = (nops // max(1, n // len(ph.primitive)) >= 2) or nondiag or interleaved or spec["compact"] or not spec["is_symmetry"]
     classes = [spec["crystal"]["kind"], "compact" if spec["compact"] else "full", "pm:%s" % spec["is_plusminus"],
                "nondiag" if nondiag else "diag", "trigonal:%s/diag:%s" % (spec.get("is_trigonal", False), spec["is_diagonal"]), "sym" if spec["is_symmetry"] else "nosym", "pmat:" + pm, "forces_from:" + spec.get("forces_from", "dataset"),
-               "regenerated" if spec.get("regenerate") else "single_generate", "dataset_order:" + order,
+               "regenerated" if spec.get("regenerate") else "single_generate", "dataset_order:" + order, "dataset_shared_with_second_object" if (spec.get("shared_dataset") and order == "as_generated") else "single_object",
                "magmom:" + (mag if mag != "nc_uniform" else mag + "/" + spec.get("magdir", "z")),
                "moments_lower_symmetry" if (unit_moments is not None and mag_reduced) else "moments_keep_symmetry_or_none",
                "ndisp:%d" % min(len(forces), 12)]
